@@ -47,6 +47,7 @@ type Frame struct {
 	env    []Value
 	defers []deferred
 	visits map[*ssa.BasicBlock]int
+	symLoop map[*ssa.BasicBlock]bool // loop headers whose exit was decided by a symbolic condition since the loop was entered
 	gor    int
 }
 
